@@ -283,16 +283,25 @@ def warm():
             pass
     k = dict(fab="enAB", reg="disl", tex="random", vol="uniform", ng=3, prm="default")
     m = build_mineral(k)
-    update(m, params_for(1, "default"), np.eye(3), flow("gen"), 0.0, 0.05)
+    try:
+        update(m, params_for(1, "default"), np.eye(3), flow("gen"), 0.0, 0.05)
+    except Exception:
+        pass
     # every numeric type signature the parameter letters can produce (M* is an int in
     # DefaultParams and a float in the overrides), so that no worker has to JIT-compile
     for prm in ("M200", "M0chi0", "lam0", "p1", "n2"):
         for reg in ("disl", "yield"):
             k = dict(fab="olA", reg=reg, tex="random", vol="geometric", ng=3, prm=prm)
-            update(build_mineral(k), params_for(0, prm), np.eye(3), flow("gen"), 0.0, 0.05)
+            try:
+                update(build_mineral(k), params_for(0, prm), np.eye(3), flow("gen"), 0.0, 0.05)
+            except Exception:
+                pass
     with Monitor():
         k = dict(fab="olA", reg="disl", tex="random", vol="geometric", ng=3, prm="M200")
-        update(build_mineral(k), params_for(0, "M200"), np.eye(3), flow("pos"), 0.0, 0.05)
+        try:
+            update(build_mineral(k), params_for(0, "M200"), np.eye(3), flow("pos"), 0.0, 0.05)
+        except Exception:
+            pass
 
 
 
